@@ -296,6 +296,15 @@ def _name(c):
 
 
 def _check_accessors(ctx, case, seq, g, method):
+    """(wrapper) an accessor that RAISES on a group a query returned is a failure of the property, not of the harness"""
+    try:
+        _check_accessors_inner(ctx, case, seq, g, method)
+    except Exception as e:  # noqa: BLE001
+        ctx.fail(dict(case, accessor='raised'), {'what': 'an accessor of a returned group raised instead of reporting the construction values',
+                                                 'error': f'{type(e).__name__}: {e}'[:300]}, site=f'accessors/{method}/raised')
+
+
+def _check_accessors_inner(ctx, case, seq, g, method):
     """a returned group reports what it was constructed with.  Every query returns a fresh object for the group, so the
     accessors are checked on the first return of a group on a path and on every 8th return after that (the full check is a
     third of the run time otherwise); the tracking UID is checked on every return."""
@@ -726,7 +735,7 @@ def _shapes(ctx, reqs, pending, spec_reqs, spec_pending, only_idx=None):
     from pydicom.sr.codedict import codes
     import highdicom as hd
     pairs = [(a, b) for a in SHAPES for b in SHAPES]
-    n_tri = ctx.n(40, 900)
+    n_tri = ctx.n(16, 900)
     idxs = range(len(pairs) + n_tri) if only_idx is None else [only_idx]
     for idx in idxs:
         r = ctx.rng('shapes', idx)
@@ -750,7 +759,7 @@ def _shapes(ctx, reqs, pending, spec_reqs, spec_pending, only_idx=None):
         uids = [g['tracking_uid'] for g in groups]
         for method in ('planar', 'volumetric', 'image'):
             fl = [{n: None for n in FILTERS[method]}]
-            if method != 'image' and idx % (6 if (ctx.tier == 'quick' and not ctx.search_mode) else 4) == 0:
+            if method != 'image' and idx % (9 if (ctx.tier == 'quick' and not ctx.search_mode) else 4) == 0:
                 fl += [dict(fl[0], graphic_type=gt) for gt in _pools(groups, pool)['graphic_type']]
             for f in fl:
                 why, must, may = expected(groups, method, f)
@@ -1041,7 +1050,9 @@ def _twins(ctx, reqs, pending, spec_reqs, spec_pending, only_idx=None):
             spec_reqs.append(('spec', reqs[-1][1]))
             spec_pending.append((dict(case0, method=method, filters={k: v for k, v in f.items() if v is not None}, what='spec'), why, must, may))
             first = True
-            for pname, rp in paths:
+            given = [k_ for k_ in f if f[k_] is not None]
+            both_paths = ctx.tier != 'quick' or ctx.search_mode or len(given) != 1 or given == ['tracking_uid']
+            for pname, rp in (paths if both_paths else paths[:1]):
                 case = dict(case0, method=method, filters={k: v for k, v in f.items() if v is not None}, path=pname)
                 res = _call(getattr(rp, METHODS[method]), **_to_args(f))
                 ok = res[0] == 'ok'
@@ -1194,6 +1205,9 @@ def _malformed(ctx, reqs3, pending3, only_idx=None):
 
     def in_quick(i):
         sh, m, pos = i // (2 * nm_), i // 2 % nm_, i % 2
+        if MALFORMED[m] in ('versioned-names', 'versioned-values', 'snm3-names', 'legacy-names'):
+            # how codes are matched does not depend on the shape of the ROI reference: a quarter of the shapes (all in thorough)
+            return sh % 4 == (m + ctx.seed) % 4 and (sh // 4 + m + ctx.seed) % 2 == pos
         return (sh // 2 + m + ctx.seed) % 2 == sh % 2 and (sh + m + ctx.seed) % 2 == pos
     idxs = [only_idx] if only_idx is not None else \
         [i for i in range(len(combos)) if ctx.tier != 'quick' or ctx.search_mode or in_quick(i)]
@@ -1575,7 +1589,7 @@ def run(ctx):
         t_[0] = time.time()
     _helpers(ctx, reqs2, pending2)
     lap('argument checks')
-    for idx in range(ctx.n(12, 250)):
+    for idx in range(ctx.n(8, 250)):
         res = _call(_report_case, ctx, idx)
         if res[0] != 'ok':
             ctx.fail({'stream': 'report', 'seed': ctx.seed, 'idx': idx}, f'a valid report could not be constructed: {res[2]}',
@@ -1679,7 +1693,7 @@ def search(ctx, broken):
         if name == 'helpers':
             _helpers(ctx, [], [])
         elif name == 'reports':
-            for idx in range(min(ctx.n(12, 250), 40)):
+            for idx in range(min(ctx.n(8, 250), 40)):
                 res = _call(_report_case, ctx, idx)
                 if res[0] == 'ok':
                     _check_report(ctx, res[1], [], [])
